@@ -24,7 +24,8 @@ def progOf (op : String) : Option Prog :=
   | "flip_k1_insert_stale" | "flip_k2_stale" => some (dtInsertGuarded ;; editFlip)
   | "insert_duplicate" => some dtInsertGuarded
   | "remove_unknown" => some dtRemoveGuarded
-  | "repair" | "repair_adv" => some repairPublic
+  | "repair" => some repairPublic
+  | "repair_adv" => some repairAdvanced
   | _ => none
 
 def failpointsOf : Prog → List String
@@ -34,6 +35,7 @@ def failpointsOf : Prog → List String
   | .seq p q => failpointsOf p ++ failpointsOf q
   | .scope b => failpointsOf b
   | .attempt b => failpointsOf b
+  | .orElse p q => failpointsOf p ++ failpointsOf q
 
 def runTxn (c : Case) : Res :=
   let op := c.arg "op"
